@@ -526,6 +526,18 @@ def ts_type(t, nested=False):
         return "(" + ts_type(t["t"]) + ")"
     if k == "idx":
         return ts_type(t["obj"], True) + "[" + ts_type(t["index"]) + "]"
+    if k == "op":
+        r = t["op"] + " " + ts_type(t["t"], True)
+        return f"({r})" if nested else r
+    if k == "query":
+        return "typeof " + t["name"]
+    if k == "cond":
+        r = "string extends number ? string : number"
+        return f"({r})" if nested else r
+    if k == "qref":
+        return t["ns"] + "." + t["name"]
+    if k == "mapped":
+        return "{ [K in 'a' | 'b']: string }"
     raise ValueError("type " + k)
 
 
@@ -536,7 +548,7 @@ def ts_decl(d, exported=False):
     if d["k"] == "class":
         return f'{pre}class {d["name"]} {{}}'
     if d["k"] == "enum":
-        ms = ", ".join(f"M{i} = 'v{i}'" if k == "str" else f"M{i} = {i}" for i, k in enumerate(d["kinds"]))
+        ms = ", ".join(f"M{i} = 'v{i}'" if k == "str" else f"M{i}" if k == "auto" else f"M{i} = {i}" for i, k in enumerate(d["kinds"]))
         return f'{pre}declare enum {d["name"]} {{ {ms} }}'
     if d["k"] == "import":
         return f'import type {{ {d["name"]} }} from "./types"'
@@ -572,6 +584,7 @@ def render_ts(case):
             "none": None, "empty": "{}", "props": "{ props: ['u'] }", "props_quoted": "{ 'props': ['u'] }",
             "emits": "{ emits: ['x'] }", "emits_quoted": "{ \"emits\": ['x'] }", "name": "{ name: 'N' }", "name_quoted": "{ 'name': 'N' }",
             "all": "{ name: 'N', props: ['u'], emits: ['x'] }", "inheritAttrs": "{ inheritAttrs: false }",
+            "name_shorthand": "{ name }", "props_shorthand": "{ props }", "emits_shorthand": "{ emits }", "all_shorthand": "{ emits, name, props }",
             "spread_only": "{ ...o }", "spread_then_emits": "{ ...o, emits: ['x'] }", "emits_then_spread": "{ emits: ['x'], ...o }",
             "spread_empty": "{ ...e }", "two_spreads_oe": "{ ...o, ...e }", "two_spreads_eo": "{ ...e, ...o }",
             "two_spreads_om": "{ ...o, ...mk() }", "ident": "o", "ident_empty": "e", "call": "mk()",
@@ -607,7 +620,8 @@ def render_ts(case):
             raise ValueError("provenance " + prov)
         # another component defined inside the options of this one (not itself a variable's initialiser)
         second["nested"] = f"{{ components: {{ Row: {callee}((p: {{ b?: string }}) => () => null) }} }}"
-        lines = head + [f"const o: any = {O}", "const e: any = {}", "const mk = (): any => ({ emits: ['x'] })"]
+        lines = head + [f"const o: any = {O}", "const e: any = {}", "const mk = (): any => ({ emits: ['x'] })",
+                        "const name = 'N', props = ['u'], emits = ['x']"]
         if shape == "spread_args":
             lines.append(f"const args: [any, any] = [{setup}, {{ props: ['u'] }}]")
             call = f"{callee}(...args)"
@@ -708,7 +722,8 @@ def render_ts(case):
         cf = case.get("ctxform", "plain")
         pname = "{ emit }" if "destructured" in cf else "ctx"
         targs = ts_type(case["type"]) + (", { default: () => any }" if "slots2" in cf else "")
-        params = f'(props: {{ a?: string }}, {pname}: SetupContext<{targs}>)' if case.get("annotated", True) \
+        dflt = " = $fallbackCtx" if cf == "defaulted" else ""
+        params = f'(props: {{ a?: string }}, {pname}: SetupContext<{targs}>{dflt})' if case.get("annotated", True) \
             else f'(props: {{ a?: string }}, ctx)'
     else:
         raise ValueError("ts case " + kind)
